@@ -83,7 +83,7 @@ def pOp : P19 Op := fun ts =>
         op.map (·, r2)
   | [] => none
 
-def natsOut (l : List Nat) : String :=
+def natsOut19 (l : List Nat) : String :=
   if l.isEmpty then "-" else ",".intercalate (l.map toString)
 
 def valOut : Val → String
@@ -113,12 +113,12 @@ def heapStep (toks : List String) : Option String := do
   let off := offenders s op written
   let touched := maskStr (roots.map fun r => touchedB s r written)
   let base := s!"OK cert={tokOfB cert} wf={tokOfB wf} adm={tokOfB adm} effwf={tokOfB (effWFB s e)} " ++
-    s!"off={natsOut off} touched={if roots.isEmpty then "-" else touched} fp={(footprintList s op).length}"
+    s!"off={natsOut19 off} touched={if roots.isEmpty then "-" else touched} fp={(footprintList s op).length}"
   match op with
   | .fit m ds _ =>
     let smut := roots.map fun r => (sharedMut s (m :: ds) r).length
     let sany := roots.map fun r => (sharedAny s (m :: ds) r).length
-    some (base ++ s!" nocap={tokOfB (noCaptureB s (m :: ds) e)} smut={natsOut smut} sany={natsOut sany}")
+    some (base ++ s!" nocap={tokOfB (noCaptureB s (m :: ds) e)} smut={natsOut19 smut} sany={natsOut19 sany}")
   | _ => some base
 
 def getterPair (toks : List String) : Option String := do
@@ -136,7 +136,7 @@ def getterPair (toks : List String) : Option String := do
   let wf := wfB s && effWFB s e1 && effWFB s1 e2 && decide (root1 < s1.next) && decide (root2 < s2.next)
   let shared := sharedMut s2 [root1] root2
   some (s!"OK cert={tokOfB cert} wf={tokOfB wf} fresh1={tokOfB (freshResultB s e1 root1)} " ++
-    s!"fresh2={tokOfB (freshResultB s1 e2 root2)} shared={natsOut shared} " ++
+    s!"fresh2={tokOfB (freshResultB s1 e2 root2)} shared={natsOut19 shared} " ++
     s!"n1={(reachList s2 [root1]).length} n2={(reachList s2 [root2]).length}")
 
 def condFitOp (toks : List String) : Option String := do
